@@ -27,6 +27,9 @@ def run(c):
     elif r.ok:
         c.extra['f3_counterexample_reproduced_on_code'] = False
     vlib.cleanup(r)
+    # finding F10: reading an empty application value behind an even-length key crashes inside lmdb-go (child process)
+    res = vlib.run_harness(['rawread-probe'], timeout=300)
+    vlib.absorb(c, res)
     c.assumptions += ['steady state: syncer running (start-up capture with timestamp 1 is outside the property)',
                       'shadow stamps compared up to order-isomorphism', 'net changes between two LS transactions (DESIGN.md s.7)']
     c.extra['rule'] = 'shadow-mode protocol behaviours replayed on real Syncers under 3 value and 7 key concretisations'
